@@ -33,33 +33,34 @@ def deflateXF : XF := { final := fun acc => some (baToNats (Crypto.deflateStored
 /-- stages that need more than this file knows (content decryption: Jose/Driver/Jwe.lean) -/
 abbrev StageExt := String → Json → Stage → Option Stage
 
-mutual
-  partial def stageOfJsonX (ext : StageExt) (d : Json) : Option Stage :=
+/-- chain description → stage, by fuel (the description's nesting depth is far below it) so that the function is
+    total and the kernel can evaluate it (grid theorems) -/
+def stageOfJsonF (ext : StageExt) : Nat → Json → Option Stage
+  | 0, _ => none
+  | fuel + 1, d =>
+    let branches : List Json → Option Branches := fun l =>
+      l.foldr (fun x acc => match stageOfJsonF ext fuel x, acc with
+        | some s, some rs => some (.cons s rs)
+        | _, _ => none) (some .nil)
     match d with
     | .arr (.str "malloc" :: _) => some .sink
     | .arr (.str "file" :: _) => some .sink
     | .arr [.str "buffer", .int c] => some (.buffer c.toNat)
     | .arr [.str "probe", .int k] => some (.probe (some k.toNat))
     | .arr [.str "probe", _] => some (.probe none)
-    | .arr [.str "b64enc", n] => (stageOfJsonX ext n).map .b64enc
-    | .arr [.str "b64dec", n] => (stageOfJsonX ext n).map .b64dec
+    | .arr [.str "b64enc", n] => (stageOfJsonF ext fuel n).map .b64enc
+    | .arr [.str "b64dec", n] => (stageOfJsonF ext fuel n).map .b64dec
     | .arr [.str "hash", .str a, n] => do
       let h ← hashAlgOfName a
-      let s ← stageOfJsonX ext n
+      let s ← stageOfJsonF ext fuel n
       pure (.xform (hashXF h) s)
-    | .arr [.str "inflate", n] => (stageOfJsonX ext n).map (.xform inflateXF)
-    | .arr [.str "deflate", n] => (stageOfJsonX ext n).map (.xform deflateXF)
-    | .arr [.str "plex", .bool all, .arr subs] => (branchesOfJsonX ext subs).map (.plex all)
-    | .arr [.str k, arg, n] => (stageOfJsonX ext n).bind (ext k arg)
+    | .arr [.str "inflate", n] => (stageOfJsonF ext fuel n).map (.xform inflateXF)
+    | .arr [.str "deflate", n] => (stageOfJsonF ext fuel n).map (.xform deflateXF)
+    | .arr [.str "plex", .bool all, .arr subs] => (branches subs).map (.plex all)
+    | .arr [.str k, arg, n] => (stageOfJsonF ext fuel n).bind (ext k arg)
     | _ => none
-  partial def branchesOfJsonX (ext : StageExt) (l : List Json) : Option Branches :=
-    match l with
-    | [] => some .nil
-    | x :: r => do
-      let s ← stageOfJsonX ext x
-      let rs ← branchesOfJsonX ext r
-      pure (.cons s rs)
-end
+
+def stageOfJsonX (ext : StageExt) (d : Json) : Option Stage := stageOfJsonF ext 64 d
 
 def stageOfJson (d : Json) : Option Stage := stageOfJsonX (fun _ _ _ => none) d
 
